@@ -265,7 +265,8 @@ func Input(l *InputSharedVars, g *GlobalVarsMain, hPath *HFilePath, driConfig *C
 								g.WNOR[LTindex] = g.W[LTindex]
 
 								if L == 1 {
-									calcWRed(g.WMIN[LTindex], g.W[LTindex], g)
+									// calcWRed expects percent values (it divides by 100)
+									calcWRed(g.WMIN[LTindex]*100, g.W[LTindex]*100, g)
 								}
 							}
 						}
